@@ -9,6 +9,7 @@ import (
 	"runtime"
 	"sort"
 	"strings"
+	"sync"
 
 	"github.com/aws/aws-sdk-go-v2/aws"
 	"github.com/aws/aws-sdk-go-v2/service/dynamodb"
@@ -208,6 +209,8 @@ func ClassifyPanic(r interface{}) (string, string) {
 // V2 drives the aws-sdk-go-v2 client.
 type V2 struct {
 	C *v2client.Client
+	// shared: request objects handed to the client by several calls (Op.Shared)
+	shared sync.Map
 }
 
 // NewV2 returns a driver with a fresh client.
@@ -403,6 +406,12 @@ func (d *V2) Apply(op model.Op) (res model.Result) {
 			return r
 		}
 		return model.Result{Desc: v2Desc(out.TableDescription)}
+	case "DeclareAttrs": // UpdateTable that carries attribute definitions and no index action
+		out, err := c.UpdateTable(ctx, &dynamodb.UpdateTableInput{TableName: aws.String(op.Table), AttributeDefinitions: v2AttrDefs(op.IndexAttrs)})
+		if err != nil {
+			return fail(err)
+		}
+		return model.Result{Desc: v2Desc(out.TableDescription)}
 	case "DeleteIndex":
 		out, err := c.UpdateTable(ctx, &dynamodb.UpdateTableInput{TableName: aws.String(op.Table),
 			GlobalSecondaryIndexUpdates: []types.GlobalSecondaryIndexUpdate{{Delete: &types.DeleteGlobalSecondaryIndexAction{IndexName: aws.String(op.Index)}}}})
@@ -490,8 +499,13 @@ func (d *V2) Apply(op model.Op) (res model.Result) {
 		}
 		return r
 	case "Get":
-		out, err := c.GetItem(ctx, &dynamodb.GetItemInput{TableName: aws.String(op.Table), Key: ToV2Item(op.Key),
-			ProjectionExpression: strPtrOrNil(op.Projection), ExpressionAttributeNames: v2Names(op.Names), ConsistentRead: boolPtrOrNil(op.Consistent)})
+		in := &dynamodb.GetItemInput{TableName: aws.String(op.Table), Key: ToV2Item(op.Key),
+			ProjectionExpression: strPtrOrNil(op.Projection), ExpressionAttributeNames: v2Names(op.Names), ConsistentRead: boolPtrOrNil(op.Consistent)}
+		if op.Shared != "" {
+			p, _ := d.shared.LoadOrStore(op.Shared, in)
+			in = p.(*dynamodb.GetItemInput)
+		}
+		out, err := c.GetItem(ctx, in)
 		if err != nil {
 			return fail(err)
 		}
@@ -507,6 +521,10 @@ func (d *V2) Apply(op model.Op) (res model.Result) {
 		if op.Backward {
 			in.ScanIndexForward = aws.Bool(false)
 		}
+		if op.Shared != "" {
+			p, _ := d.shared.LoadOrStore(op.Shared, in)
+			in = p.(*dynamodb.QueryInput)
+		}
 		out, err := c.Query(ctx, in)
 		if err != nil {
 			return fail(err)
@@ -518,6 +536,10 @@ func (d *V2) Apply(op model.Op) (res model.Result) {
 			ExclusiveStartKey: ToV2Item(op.StartKey), ConsistentRead: boolPtrOrNil(op.Consistent), ProjectionExpression: strPtrOrNil(op.Projection)}
 		if op.Limit > 0 {
 			in.Limit = aws.Int32(int32(op.Limit))
+		}
+		if op.Shared != "" {
+			p, _ := d.shared.LoadOrStore(op.Shared, in)
+			in = p.(*dynamodb.ScanInput)
 		}
 		out, err := c.Scan(ctx, in)
 		if err != nil {
